@@ -27,6 +27,7 @@ Inductive instr :=
   | IPark | IUnpark (b : nat)
   | ISend (h : nat) (v : N) | IRecv (h : nat) | ITryRecv (h : nat) | IDropRx (h : nat)
   | ICellRead (u : nat) | ICellWrite (u : nat)
+  | ICellNested (u k : nat)     (* an access from inside another access of the same thread: 0 write in read, 1 read in write, 2 write in write, 3 read in read *)
   | IYield
   | IAwait (a : nat) (v : N) (o : ord)
   | IUnsyncLoad (a : nat) | IWithMut (a : nat) (v : N)
